@@ -60,6 +60,9 @@ CyclePreds(e) ==
       \* soundness of this cycle's primaries
       WhenD(\E i \in 1..Len(pr) : ~Sound(c, pr[i]), "C02_sound", ToString(c))
       \cup WhenD(\E i \in 1..Len(pr) : pr[i] < 0 \/ pr[i] >= Len(truth[c + 1]), "C01_frame", ToString(c))
+      \* one sample is the trigger of at most one primary record (a record emitted a second time is an invented one)
+      \cup WhenD(Plain(c) /\ ((\E i \in 1..Len(pr) : pr[i] \in prims[c + 1]) \/ (\E i, j \in 1..Len(pr) : i < j /\ pr[i] = pr[j])),
+                 "C02_no_duplicate", ToString(c))
       \* edge-only: no overlapping records between reconfigurations
       \cup WhenD(Plain(c) /\ t.edge /\ ~t.level /\ ~t.auto /\
                  (\E a, b \in ps : a < b /\ b - a < nsamp), "C02_no_overlap", ToString(c))
@@ -200,6 +203,10 @@ Step ==
             /\ Report(CyclePreds(e) \cup (IF e.crashed THEN {} ELSE BagPreds(e)) \cup CompletePreds)
        [] e.ev = "Panic" ->
             /\ Report({<<"C01_nocrash", e.where>>} \cup WhenD(AnyEM, "C08_nocrash", e.where) \cup WhenD(everConn, "C09_nocrash", e.where))
+            /\ UNCHANGED <<cfg, npre, nsamp, trig, truth, epoch, aepoch, oldcov, mxpre, prims, checked, conn, cyc, everConn, runA, runB>>
+       [] e.ev = "EMDrop" ->
+            \* edge-multi across data drops (frame numbers jump between blocks): only crash-freedom is demanded (C08)
+            /\ Report(WhenD(e.panic # "", "C08_nocrash", "data drop"))
             /\ UNCHANGED <<cfg, npre, nsamp, trig, truth, epoch, aepoch, oldcov, mxpre, prims, checked, conn, cyc, everConn, runA, runB>>
        [] e.ev = "End" ->
             /\ Report((IF AnyEM THEN EMPreds(IF e.run = "A" THEN runA ELSE runB) ELSE {})
